@@ -14,6 +14,7 @@ import (
 	"io"
 	"os"
 	"path/filepath"
+	"runtime"
 	"sort"
 	"strings"
 	"sync"
@@ -181,6 +182,66 @@ func fmtMoves(ms []move) string {
 	return "[" + strings.Join(ss, ",") + "]"
 }
 
+// ---------------------------------------------------------------- volume data file wrapper
+
+// volFile passes every call through to the real volume file and records which
+// slots were written since the last fsync that really returned (ground truth for
+// "durable"); one-shot hooks let the harness stop a goroutine right after the
+// real fsync / write returned.
+type volFile struct {
+	inner storage.VerifVolumeData
+	mu    sync.Mutex
+	dirty map[uint64]bool
+
+	afterSync  func()
+	afterWrite func()
+}
+
+func (f *volFile) ReadAt(p []byte, off int64) (int, error) { return f.inner.ReadAt(p, off) }
+func (f *volFile) Close() error                            { return f.inner.Close() }
+
+func (f *volFile) WriteAt(p []byte, off int64) (int, error) {
+	n, err := f.inner.WriteAt(p, off)
+	f.mu.Lock()
+	if n > 0 {
+		f.dirty[uint64(off)/sectorSize] = true
+	}
+	h := f.afterWrite
+	f.afterWrite = nil
+	f.mu.Unlock()
+	if h != nil {
+		h()
+	}
+	return n, err
+}
+
+func (f *volFile) Sync() error {
+	err := f.inner.Sync()
+	f.mu.Lock()
+	if err == nil {
+		f.dirty = map[uint64]bool{}
+	}
+	h := f.afterSync
+	f.afterSync = nil
+	f.mu.Unlock()
+	if h != nil {
+		h()
+	}
+	return err
+}
+
+func (f *volFile) Truncate(size int64) error {
+	err := f.inner.Truncate(size)
+	f.mu.Lock()
+	for k := range f.dirty {
+		if int64(k)*sectorSize >= size {
+			delete(f.dirty, k)
+		}
+	}
+	f.mu.Unlock()
+	return err
+}
+
 // ---------------------------------------------------------------- world
 
 type world struct {
@@ -203,6 +264,7 @@ type world struct {
 	bufIdx  map[*[sectorSize]byte]int
 	writers map[int]*writer
 	dirty   map[[2]uint64]bool
+	files   map[int64]*volFile
 	volPath map[int64]string
 	nvol    int
 	metaInt map[types.Hash256]int
@@ -237,7 +299,37 @@ func (w *world) open() {
 			w.t.Fatal("volume manager:", err)
 		}
 		w.vm = vm
+		w.files = map[int64]*volFile{}
+		vols, err := st.Volumes()
+		w.fatal(err)
+		for _, v := range vols {
+			w.wrapVolume(v.ID)
+		}
 	}
+}
+
+// wrapVolume puts the recording wrapper around the data file of a loaded volume.
+func (w *world) wrapVolume(id int64) {
+	f := &volFile{dirty: map[uint64]bool{}}
+	if w.vm.VerifWrapVolumeData(id, func(inner storage.VerifVolumeData) storage.VerifVolumeData {
+		f.inner = inner
+		return f
+	}) {
+		w.files[id] = f
+	}
+}
+
+// unsynced lists the slots written since the last fsync of their file returned.
+func (w *world) unsynced() map[[2]uint64]bool {
+	out := map[[2]uint64]bool{}
+	for id, f := range w.files {
+		f.mu.Lock()
+		for k := range f.dirty {
+			out[[2]uint64{uint64(id), k}] = true
+		}
+		f.mu.Unlock()
+	}
+	return out
 }
 
 func (w *world) shutdown() {
@@ -803,6 +895,9 @@ func (w *world) doVmAdd(n uint64) int64 {
 		return <-result
 	})
 	w.volPath[id] = path
+	if id != 0 {
+		w.wrapVolume(id)
+	}
 	w.line(fmt.Sprintf("vmadd n=%d", n), fmt.Sprintf("res=%s id=%d", res, id))
 	return id
 }
@@ -991,12 +1086,130 @@ func (w *world) doMutate(b, to int) {
 	w.tr.Line(fmt.Sprintf("mutate b=%d to=%d", b, to), "")
 }
 
+func fmtSlots(m map[[2]uint64]bool) string {
+	var keys [][2]uint64
+	for k := range m {
+		keys = append(keys, k)
+	}
+	sort.Slice(keys, func(i, j int) bool { return keys[i][0] < keys[j][0] || (keys[i][0] == keys[j][0] && keys[i][1] < keys[j][1]) })
+	ss := make([]string, len(keys))
+	for i, k := range keys {
+		ss[i] = fmt.Sprintf("%d:%d", k[0], k[1])
+	}
+	return "[" + strings.Join(ss, ",") + "]"
+}
+
 func (w *world) doSync() {
 	res := try(func() error { return w.vm.Sync() })
-	if res == "ok" {
-		w.dirty = map[[2]uint64]bool{}
+	// what the data files say is still not fsynced although Sync returned
+	w.line("sync", fmt.Sprintf("res=%s unsynced=%s", res, fmtSlots(w.unsynced())))
+}
+
+// doSyncRace steers two RPCs sharing volume v: S calls Sync() while B uploads
+// sector r into the same volume. S is stopped right after its real fsync
+// returned; B's data write then lands after that fsync, and B is given the
+// chance to mark the volume dirty before S clears the dirty flag. Afterwards B
+// calls Sync() itself (reported by the following `sync` line).
+// lostflag=1: the volume holds data written after the last fsync but is no
+// longer marked dirty.
+func (w *world) doSyncRace(v int64, r int, tries int) {
+	f := w.files[v]
+	if f == nil || len(w.writers) > 0 {
+		return
 	}
-	w.line("sync", "res="+res)
+	// two Ps: one for B, one kept busy by this goroutine while S waits in its run queue
+	defer runtime.GOMAXPROCS(runtime.GOMAXPROCS(2))
+	lost := 0
+	lastRes := "ok"
+	firstBuf := len(w.bufs)
+	var kinds, locs []string
+	for n := 0; n < tries && lost == 0 && (n == 0 || lastRes == "placed"); n++ {
+		root := r + n
+		p := sectorData(root)
+		w.bufID(p)
+		reached, release := make(chan struct{}), make(chan struct{})
+		f.mu.Lock()
+		f.afterSync = func() { close(reached); <-release }
+		f.mu.Unlock()
+		doneS := make(chan error, 1)
+		go func() { doneS <- w.vm.Sync() }()
+		select {
+		case <-reached:
+		case <-doneS:
+			// v is not marked dirty: S has nothing to do there; plain upload
+			f.mu.Lock()
+			f.afterSync = nil
+			f.mu.Unlock()
+			var loc *storage.SectorLocation
+			lastRes, loc = w.write(root, p, false)
+			kinds, locs = append(kinds, "n"), append(locs, fmtLoc(loc))
+			continue
+		}
+		// B: its StoreSector commits the slot, then blocks on the volume lock S holds
+		wrote := make(chan struct{})
+		f.mu.Lock()
+		f.afterWrite = func() { close(wrote) }
+		f.mu.Unlock()
+		w.ws.mu.Lock()
+		w.ws.lastLoc = nil
+		w.ws.mu.Unlock()
+		doneB := make(chan error, 1)
+		go func() { doneB <- w.vm.Write(realRoot(root), p) }()
+		time.Sleep(5 * time.Millisecond)
+		// hold the manager's mutex so that S stops where it is about to clear the flag
+		w.vm.VerifLockMu()
+		close(release)
+		var errB error
+		finished := false
+		select {
+		case <-wrote:
+		case errB = <-doneB: // no space / already stored: B never wrote
+			finished = true
+		case <-time.After(2 * time.Second):
+		}
+		// let go of the mutex and keep this P busy: the woken S sits in this P's run
+		// queue while B, running on the other P, reaches its own Lock first
+		w.vm.VerifUnlockMu()
+		t0 := time.Now()
+		for !finished && time.Since(t0) < 8*time.Millisecond {
+			select {
+			case errB = <-doneB:
+				finished = true
+			default:
+			}
+		}
+		if !finished {
+			errB = <-doneB
+		}
+		<-doneS
+		f.mu.Lock()
+		f.afterWrite = nil
+		f.mu.Unlock()
+		w.ws.mu.Lock()
+		loc := w.ws.lastLoc
+		w.ws.mu.Unlock()
+		lastRes = classErr(errB)
+		if errB == nil {
+			lastRes = "exist"
+			if loc != nil {
+				lastRes = "placed"
+			}
+		}
+		flagged := false
+		for _, id := range w.vm.VerifChangedVolumes() {
+			if id == v {
+				flagged = true
+			}
+		}
+		kind := "s"
+		if lastRes == "placed" && !flagged && len(w.unsynced()) > 0 {
+			lost, kind = 1, "r"
+		}
+		kinds, locs = append(kinds, kind), append(locs, fmtLoc(loc))
+	}
+	w.tr.Count(fmt.Sprintf("syncrace:lost%d", lost))
+	w.line(fmt.Sprintf("syncrace v=%d r=%d tries=%d", v, r, tries),
+		fmt.Sprintf("res=%s lostflag=%d kinds=[%s] locs=[%s] buf=%d", lastRes, lost, strings.Join(kinds, ","), strings.Join(locs, ","), firstBuf))
 }
 
 func (w *world) doCache(n int) {
@@ -1027,6 +1240,8 @@ var dbSuffixes = []string{"", "-wal", "-shm"}
 // their slot commit), everything is shut down, the copy is put back, unsynced
 // sector writes chosen by (p, seed) are replaced by garbage, and the host restarts.
 func (w *world) doCrash(p int, seed uint64) {
+	// ground truth of what is not fsynced: the data file wrappers
+	w.dirty = w.unsynced()
 	// slots that still exist (a shrink or a removal may have dropped dirty ones)
 	exists := map[int64]uint64{}
 	if vols, err := w.store.Volumes(); err == nil {
